@@ -23,7 +23,7 @@ RULE = ("(box) exhaustive: every 1<=p<=n<=N through the real Layout constructor 
         "(box/multi); a rank whose block does not start at 0 (accessors).")
 ASSUMPTIONS = ["simulated MPI for the accessor sub-check", "1 <= p <= n for every distributed dimension (callers guarantee it)"]
 
-BOX = {"quick": 96, "thorough": 400}
+BOX = {"quick": 96, "thorough": 560}
 
 
 def init_worker(tier):
@@ -268,7 +268,7 @@ SUBS = {"box": Sub(box_slab, enumerate=box_enum, exhaustive=True),
 
 
 def jobs(tier):
-    nm, na = (400, 100) if tier == "quick" else (6000, 2500)
+    nm, na = (400, 100) if tier == "quick" else (20000, 6000)
     return ([{"sub": "box", "shard": i, "nshards": 16} for i in range(16)] +
             [{"sub": "multi", "n": nm, "shard": i} for i in range(8)] +
             [{"sub": "accessors", "n": na, "shard": i} for i in range(16)])
